@@ -601,7 +601,8 @@ Section Handlers.
       let n := be (sub m 1 2) in
       let last := s_pref s in
       enc_loop (Z.to_nat n) s last
-        (mkEnc (-1) false false false false false (s_curmoved s) false false false false (s_extclip s))).
+        (* every capability flag is reset, enableExtendedClipboard included (commit 2d15d75) *)
+        (mkEnc (-1) false false false false false (s_curmoved s) false false false false false)).
 
   Definition h_FUR (s : cstate) : prog cstate :=
     rd_msg c04_sz_FUR s (fun m =>
